@@ -26,7 +26,7 @@ import (
 
 func cases(r *evid.Run) []chainsim.Case {
 	var out []chainsim.Case
-	n, blocks := r.Pick(8, 160), r.Pick(60, 120)
+	n, blocks := r.Pick(8, 80), r.Pick(60, 100)
 	profiles := []string{"default", "default", "hostile", "registry", "election"}
 	for i := 0; i < n; i++ {
 		out = append(out, chainsim.Case{Index: i, Seed: uint64(r.Seed)*1_000_003 + uint64(i), Profile: profiles[i%len(profiles)], Blocks: blocks})
